@@ -5,7 +5,7 @@ schedules and cancel moments (batches queued, running, some finished, jobs unsub
 Coq monitors; Python oracles judge impl's trace and final state directly (harness/syscheck.py)."""
 from harness import core, syscheck
 
-MODES = {'cancel': 9, 'plain': 1}
+MODES = {'cancel': 8, 'plain': 1, 'suspendcancel': 2}
 
 
 def run(chk):
